@@ -404,7 +404,7 @@ func c09Seq(cc c09Cell, env *Env) CellResult {
 }
 
 func c09Failover(cfg FCfg, env *Env) CellResult {
-	opt := vsched.Options{PreemptionBound: 2, EnvBound: 0}
+	opt := vsched.Options{PreemptionBound: 2, EnvBound: 0, HBCache: true}
 	if env.Thorough() {
 		opt = vsched.Options{PreemptionBound: -1, EnvBound: 0, HBCache: true, MaxExecs: 400000}
 	}
